@@ -113,3 +113,147 @@ def type_histogram(res, snap, name="module_types"):
             res.hist(name, m["type"])
             if m["type"] == "MetaModule":
                 type_histogram(res, m["payload"]["project"], name + "_embedded")
+
+
+# ------------------------------------------------------------------ the same bytes through every kind of stream / file name
+def stream_kinds(raw, tdir, tag="f"):
+    """Yields (kind, open_fn) pairs; open_fn() returns (argument for read_sunvox_file, [things to close afterwards]).
+    Everything is opened by the CALLER, as applications do: plain and unbuffered files, read-write files, memory maps,
+    decompressing streams over real files (their fileno() is the COMPRESSED file's), pipes, socket files."""
+    import bz2
+    import gzip
+    import lzma
+    import mmap
+    import os
+    import socket
+    import threading
+    path = os.path.join(tdir, f"{tag}.bin")
+    with open(path, "wb") as f:
+        f.write(raw)
+    for ext, mod in ((".gz", gzip), (".bz2", bz2), (".xz", lzma)):
+        with mod.open(path + ext, "wb") as f:
+            f.write(raw)
+
+    def joiner(t):
+        return type("J", (), {"close": staticmethod(t.join)})
+
+    def pipe():
+        r, w = os.pipe()
+        wf = os.fdopen(w, "wb")
+
+        def feed():
+            try:
+                wf.write(raw)
+            except OSError:
+                pass
+            finally:
+                wf.close()
+        t = threading.Thread(target=feed, daemon=True)
+        t.start()
+        rf = os.fdopen(r, "rb")
+        return rf, [rf, joiner(t)]
+
+    def sock():
+        a, b = socket.socketpair()
+
+        def feed():
+            try:
+                b.sendall(raw)
+            except OSError:
+                pass
+            finally:
+                b.close()
+        t = threading.Thread(target=feed, daemon=True)
+        t.start()
+        f = a.makefile("rb")
+        return f, [f, a, joiner(t)]
+
+    def mm():
+        fh = open(path, "rb")
+        m = mmap.mmap(fh.fileno(), 0, access=mmap.ACCESS_READ)
+        return m, [m, fh]
+
+    def simple(fn):
+        def o():
+            f = fn()
+            return f, [f]
+        return o
+    yield "buffered", simple(lambda: open(path, "rb"))
+    yield "unbuffered", simple(lambda: open(path, "rb", buffering=0))
+    yield "read-write", simple(lambda: open(path, "r+b"))
+    yield "small-buffer", simple(lambda: open(path, "rb", buffering=16))
+    if raw:
+        yield "mmap", mm
+    yield "gzip.open", simple(lambda: gzip.open(path + ".gz", "rb"))
+    yield "bz2.open", simple(lambda: bz2.open(path + ".bz2", "rb"))
+    yield "lzma.open", simple(lambda: lzma.open(path + ".xz", "rb"))
+    yield "pipe", pipe
+    yield "socket", sock
+
+
+ODD_FILE_NAMES = ["~autosave.sunvox", "~", " leading and trailing .sunvox ", "-n.sunvox", "a*b?[c].sunvox", "$HOME.sunvox", "%TEMP%.sunsynth", "café ♫.sunvox",
+                  "x.sunvox.gz", "noext", ".hidden", "a;b&c.sunvox", "{braces}.sunvox", "~user/../q.sunvox"]
+
+
+def loads_through_streams_and_names(res, prop, raw, snap_fn, desc, tdir, kinds=None):
+    """Every way of handing the same bytes to the loader gives the object the plain in-memory stream gives."""
+    import os
+    from io import BytesIO
+    from pathlib import Path
+    import rv.api as api
+    try:
+        want = snap_fn(api.read_sunvox_file(BytesIO(raw)))
+    except Exception:
+        res.count("stream_kind_base_unloadable")
+        return
+    for kind, opener in stream_kinds(raw, tdir):
+        if kinds is not None and kind not in kinds:
+            continue
+        closers = []
+        try:
+            arg, closers = opener()
+            got = snap_fn(api.read_sunvox_file(arg))
+        except Exception as e:
+            if kind in ("pipe", "socket"):
+                res.count("non_seekable_stream_refused")     # the reader seeks: streams that cannot are outside what it supports
+                continue
+            res.violation(f"{prop}:stream-kind:{kind}:{exc_key(e)}", f"{len(raw)} bytes that load from an in-memory stream fail through a {kind} stream: {e!r}", dict(desc, stream=kind))
+            continue
+        finally:
+            for c in closers:
+                try:
+                    c.close()
+                except Exception:
+                    pass
+        res.count("loads_through_stream_kinds")
+        res.hist("stream_kinds", kind)
+        if got != want:
+            d = snapshot.diff(want, got)
+            res.violation(f"{prop}:stream-kind:{kind}:{snapshot.field_key(d[0][0]) if d else '?'}", f"the same {len(raw)} bytes load differently through a {kind} stream: {d[:2]}", dict(desc, stream=kind))
+    # by name: relative names with characters that mean something to shells / path helpers, from the directory they are in
+    if kinds is not None:
+        return
+    cwd = os.getcwd()
+    try:
+        os.chdir(tdir)
+        for name in ODD_FILE_NAMES:
+            if "/" in name:
+                os.makedirs(os.path.dirname(name), exist_ok=True)
+            try:
+                with open(name, "wb") as f:
+                    f.write(raw)
+            except OSError:
+                res.count("odd_file_name_not_creatable")
+                continue
+            for arg in (name, Path(name), os.path.join(".", name)):
+                try:
+                    got = snap_fn(api.read_sunvox_file(arg))
+                except Exception as e:
+                    res.violation(f"{prop}:file-name:{exc_key(e)}", f"a file named {name!r} in the current directory (given as {arg!r}) does not load: {e!r}", dict(desc, name=name))
+                    break
+                res.count("loads_by_odd_file_names")
+                if got != want:
+                    res.violation(f"{prop}:file-name:differs", f"a file named {name!r} in the current directory loads differently from its bytes", dict(desc, name=name))
+                    break
+    finally:
+        os.chdir(cwd)
